@@ -384,6 +384,18 @@ func c06Extra(ctx *Ctx) error {
 		"/b": J{"get": J{"operationId": "opB", "parameters": ref("LimitReq"), "responses": ok}},
 		"/c": J{"get": J{"operationId": "opC", "parameters": []interface{}{J{"name": "filter", "in": "query", "style": "deepObject", "explode": true,
 			"schema": J{"type": "object", "properties": J{"age": J{"type": "integer"}}}}}, "responses": ok}},
+		// query and cookie parameters that are called like the header names OpenAPI sets aside (Accept, Content-Type,
+		// Authorization are ignored as *header* parameters only): required ones are demanded, malformed ones refused
+		"/d": J{"get": J{"operationId": "opD", "parameters": []interface{}{J{"name": "accept", "in": "query", "required": true, "schema": J{"type": "boolean"}}}, "responses": ok}},
+		"/e": J{"get": J{"operationId": "opE", "parameters": []interface{}{J{"name": "content-type", "in": "query", "schema": J{"type": "integer"}},
+			J{"name": "Authorization", "in": "cookie", "required": true, "schema": J{"type": "integer"}}}, "responses": ok}},
+		// three optional query parameters and a required header and a required cookie parameter (the lists of an operation's
+		// parameters by location are told apart however many there are of each)
+		"/f": J{"get": J{"operationId": "opF", "parameters": []interface{}{J{"name": "limit", "in": "query", "schema": J{"type": "integer"}}, J{"name": "offset", "in": "query", "schema": J{"type": "integer"}},
+			J{"name": "sort", "in": "query", "schema": J{"type": "string"}}, J{"name": "X-Request-Id", "in": "header", "required": true, "schema": J{"type": "integer"}}}, "responses": ok}},
+		"/g": J{"get": J{"operationId": "opG", "parameters": []interface{}{J{"name": "a", "in": "query", "schema": J{"type": "integer"}}, J{"name": "b", "in": "query", "schema": J{"type": "integer"}},
+			J{"name": "c", "in": "query", "schema": J{"type": "integer"}}, J{"name": "d", "in": "query", "schema": J{"type": "integer"}}, J{"name": "e", "in": "query", "schema": J{"type": "integer"}},
+			J{"name": "sid", "in": "cookie", "required": true, "schema": J{"type": "integer"}}, J{"name": "X-T", "in": "header", "required": true, "schema": J{"type": "integer"}}}, "responses": ok}},
 	}, "components": J{"parameters": J{
 		"LimitOpt": J{"name": "limit", "in": "query", "schema": J{"type": "integer"}},
 		"LimitReq": J{"name": "limit", "in": "query", "required": true, "schema": J{"type": "integer"}}}}}
@@ -398,8 +410,17 @@ func c06Extra(ctx *Ctx) error {
 		url    string
 		reject bool
 		what   string
-	}{{"http://h/a", false, "optional-component-parameter-absent"}, {"http://h/b", true, "required-component-parameter-absent"}, {"http://h/b?limit=5", false, "required-component-parameter-present"},
-		{"http://h/a?limit=x", true, "optional-component-parameter-malformed"}, {"http://h/c?filter%5Bage%5D=abc", true, "optional-deepobject-member-malformed"}, {"http://h/c?filter%5Bage%5D=5", false, "optional-deepobject-valid"}}
+		hdrs   [][2]string
+	}{{"http://h/d", true, "required-query-parameter-called-accept-absent", nil}, {"http://h/d?accept=perhaps", true, "query-parameter-called-accept-malformed", nil},
+		{"http://h/d?accept=true", false, "query-parameter-called-accept-valid", nil},
+		{"http://h/e", true, "required-cookie-called-authorization-absent", nil}, {"http://h/e?content-type=x", true, "query-parameter-called-content-type-malformed", [][2]string{{"Cookie", "Authorization=5"}}},
+		{"http://h/e?content-type=3", false, "parameters-called-like-reserved-headers-valid", [][2]string{{"Cookie", "Authorization=5"}}},
+		{"http://h/f?limit=1", true, "required-header-absent-next-to-three-query-parameters", nil}, {"http://h/f?limit=1&sort=x", false, "three-query-parameters-and-a-header-valid", [][2]string{{"X-Request-Id", "7"}}},
+		{"http://h/f?offset=x", true, "query-parameter-malformed-next-to-a-required-header", [][2]string{{"X-Request-Id", "7"}}},
+		{"http://h/g?a=1&e=5", false, "five-query-parameters-a-cookie-and-a-header-valid", [][2]string{{"X-T", "7"}, {"Cookie", "sid=3"}}}, {"http://h/g?a=1&e=x", true, "fifth-query-parameter-malformed", [][2]string{{"X-T", "7"}, {"Cookie", "sid=3"}}},
+		{"http://h/g?a=1", true, "required-cookie-absent-next-to-five-query-parameters", [][2]string{{"X-T", "7"}}},
+		{"http://h/a", false, "optional-component-parameter-absent", nil}, {"http://h/b", true, "required-component-parameter-absent", nil}, {"http://h/b?limit=5", false, "required-component-parameter-present", nil},
+		{"http://h/a?limit=x", true, "optional-component-parameter-malformed", nil}, {"http://h/c?filter%5Bage%5D=abc", true, "optional-deepobject-member-malformed", nil}, {"http://h/c?filter%5Bage%5D=5", false, "optional-deepobject-valid", nil}}
 	for i, p := range pkgs {
 		fw := allFrameworks[i]
 		if p.GenErr != nil || p.BuildErr != "" {
@@ -407,7 +428,11 @@ func c06Extra(ctx *Ctx) error {
 			continue
 		}
 		for _, c := range cases {
-			resp, err := p.Call(J{"do": "serve", "req": J{"method": "GET", "url": c.url}, "opt": J{"stop": -1, "sstop": -1}})
+			rq := J{"method": "GET", "url": c.url}
+			if c.hdrs != nil {
+				rq["headers"] = c.hdrs
+			}
+			resp, err := p.Call(J{"do": "serve", "req": rq, "opt": J{"stop": -1, "sstop": -1}})
 			if err != nil {
 				return err
 			}
